@@ -36,4 +36,13 @@ PROPS = {
                     "Go select between a ready end-timer and a ready timer is modelled as one outcome (both close the timer without firing)"],
         "assumes": ["interval > 0 (the code busy-loops for interval <= 0; excluded from the theorems' hypotheses)"],
     },
+    "C19": {
+        "cmd": "c19",
+        "corr": ["Corr.C19corr"],
+        "trusted": ["float64 arithmetic of the layout is modelled over Z in units of 1/2 (the correspondence grid uses values on which binary64 is exact)",
+                    "freshness of RandBytes ids rests on time.Now changing between calls (the harness flags duplicates it observes)",
+                    "for cyclic graphs the row heuristic is modelled with the level-start snapshot of predecessor rows; the correspondence uses acyclic graphs",
+                    "XML round trip and engine run of the built definitions are checked on the implementation only (C15/C01 carry the models)"],
+        "assumes": ["supplied preset ids are pairwise distinct and distinct from generated ones"],
+    },
 }
